@@ -1,5 +1,8 @@
 import CotengraVerif.Lemmas.Chunks
 import CotengraVerif.Lemmas.Gather
+import CotengraVerif.Lemmas.SliceSum
+import CotengraVerif.Lemmas.Cost
+import Mathlib.Data.List.Perm.Subperm
 import Mathlib.Data.Set.Function
 
 /-!
@@ -15,7 +18,7 @@ Arrays are functional (`Arr`: shape + element function); `Arr.add`, `Arr.stack`,
 model `+`, `numpy.stack` and basic indexing and are *trusted* (validated against numpy by the
 harness).  The per-slice contraction itself (`contract_core`) is not part of C06: theorems take
 the per-slice results as an arbitrary family `S : slice number → array` (Part I, II) or as
-the einsum of the sliced network (Part III, `Props/C06Sum.lean`).
+the einsum of the sliced network (Part III).
 
 Not modelled: exponent stripping inside `gather_slices`, progress bars, `contract_mpi`.
 -/
@@ -220,6 +223,268 @@ theorem gather_sum (out : List Ix) (sl : List SliceInfo) (S : Nat → Arr)
   intro idx
   rw [get_foldl_add, List.map_cons, List.sum_cons, List.map_map, List.map_map, List.map_map]
   rfl
+
+/-! ## Part I'' — the certificate checker run on the real key table -/
+
+theorem validKeyB_iff (sl : List SliceInfo) (k : List (Ix × Nat)) :
+    validKeyB sl k = true ↔ ValidKey sl k := by
+  induction sl generalizing k with
+  | nil => cases k <;> simp [validKeyB, ValidKey]
+  | cons s rest ih =>
+    cases k with
+    | nil => simp [validKeyB, ValidKey]
+    | cons kv k => simp [validKeyB, ValidKey, ih, and_assoc]
+
+theorem nodupB_iff (ks : List (List (Ix × Nat))) : nodupB ks = true ↔ ks.Nodup := by
+  induction ks with
+  | nil => simp [nodupB]
+  | cons a t ih => simp [nodupB, ih]
+
+/-- **soundness of `keysCert`**: a table `i ↦ key` accepted by the checker is a bijection from
+    `[0, nslices)` onto the valid keys — whatever numbering the implementation uses. -/
+theorem keysCert_sound (sl : List SliceInfo) (hwf : WF sl) (ks : List (List (Ix × Nat)))
+    (h : keysCert sl ks = true) :
+    Set.BijOn (fun i => ks.getD i []) {i | i < prodSizes sl} {k | ValidKey sl k} := by
+  simp only [keysCert, Bool.and_eq_true, beq_iff_eq, List.all_eq_true, validKeyB_iff, nodupB_iff] at h
+  obtain ⟨⟨hlen, hvalid⟩, hnd⟩ := h
+  have hget : ∀ i (hi : i < ks.length), ks.getD i [] = ks[i] := by
+    intro i hi
+    rw [List.getD_eq_getElem?_getD, List.getElem?_eq_getElem hi]; rfl
+  refine ⟨?_, ?_, ?_⟩
+  · intro i hi
+    have hi' : i < ks.length := by rw [hlen]; exact hi
+    show ValidKey sl (ks.getD i [])
+    rw [hget i hi']
+    exact hvalid _ (List.getElem_mem _)
+  · intro i hi j hj hij
+    have hi' : i < ks.length := by rw [hlen]; exact hi
+    have hj' : j < ks.length := by rw [hlen]; exact hj
+    have hij' : ks[i] = ks[j] := by
+      have := hij
+      simp only [hget i hi', hget j hj'] at this
+      exact this
+    have hpw := List.pairwise_iff_getElem.1 hnd
+    rcases Nat.lt_trichotomy i j with h | h | h
+    · exact absurd hij' (hpw i j hi' hj' h)
+    · exact h
+    · exact absurd hij'.symm (hpw j i hj' hi' h)
+  · intro k hk
+    -- pigeonhole: ks is a duplicate-free list of valid keys as long as the list of all keys
+    have hsub : ks ⊆ allKeys sl := fun x hx => (mem_allKeys sl x).2 (hvalid x hx)
+    have hlenall : (allKeys sl).length = prodSizes sl := by
+      rw [← sliceKey_enumerates sl hwf]; simp
+    have hperm : ks.Perm (allKeys sl) :=
+      (List.subperm_of_subset hnd hsub).perm_of_length_le (by omega)
+    have hkm : k ∈ ks := hperm.mem_iff.2 ((mem_allKeys sl k).2 hk)
+    obtain ⟨i, hi, he⟩ := List.getElem_of_mem hkm
+    refine ⟨i, by show i < prodSizes sl; omega, ?_⟩
+    show ks.getD i [] = k
+    rw [hget i hi]
+    exact he
+
+/-! ## Part III — semantics: the slices sum / stack to the unsliced contraction -/
+
+/-- the summed indices of a network: everything that is not an output index -/
+def innerIxs (n : Net) : List Ix := n.allIx.filter fun ix => !n.output.contains ix
+
+theorem innerIxs_nodup (n : Net) : (innerIxs n).Nodup := (Net.allIx_nodup n).filter _
+
+/-- which list of summed indices is used (and in which order) is immaterial -/
+theorem sumOver_order_irrelevant {R₁ R₂ : List (Ix × List Nat)} (hp : R₁.Perm R₂)
+    (hn : (R₁.map (·.1)).Nodup) (f : (Ix → Nat) → Int) (σ : Ix → Nat) :
+    sumOver R₁ f σ = sumOver R₂ f σ := sumOver_perm hp f hn σ
+
+/-- **a slice is a section**: the einsum of the sliced network of slice `i` (sliced indices
+    removed from all terms, arrays indexed by `slice_arrays(arrays, i)`) equals the sum of the
+    *unsliced* operand product over the remaining inner indices with the sliced indices held at
+    `slice_key(i)` — for every kind of sliced index (inner, output, hyper, repeated inside a
+    tensor, carried by a single tensor, projected). -/
+theorem slice_is_section (n : Net) (st : SliceState) (hinv : Inv n st) (inner : List Ix)
+    (A : List Arr) (hA : A.length = n.inputs.length) (i : Nat) (σ : Ix → Nat) :
+    sliceEinsum n st inner A i σ =
+      sumOver (restRanges n st.slicedInds inner) (prodTerms n A) (ov σ (sliceKey st.slicedInds i)) :=
+  sliceEinsum_eq n st hinv inner A hA i σ
+
+/-- **slices sum to the whole**: at every output assignment `σ`, summing the einsums of exactly
+    those slices whose output key agrees with `σ` (this is what `gather_slices` does) gives the
+    einsum of the unsliced network, projected indices contributing exactly their chosen value. -/
+theorem slice_sum (n : Net) (st : SliceState) (hinv : Inv n st) (inner : List Ix)
+    (hin : inner.Nodup) (hdisj : ∀ ix ∈ inner, ix ∉ n.output)
+    (hcover : ∀ s ∈ st.slicedInds, s.ind ∉ n.output → s.ind ∈ inner)
+    (A : List Arr) (hA : A.length = n.inputs.length) (σ : Ix → Nat)
+    (hσ : ∀ s ∈ outs st.slicedInds, InRange st.slicedInds σ s.ind) :
+    ((List.range (prodSizes st.slicedInds)).map fun i =>
+        if chunkKey st.slicedInds (outputPos st.slicedInds n.output) i =
+            (outputPos st.slicedInds n.output).map (fun p => val st.slicedInds σ p.1)
+        then sliceEinsum n st inner A i σ else 0).sum =
+      einsumRef n st.slicedInds inner A σ := by
+  set sl := st.slicedInds with hsl
+  have hwf : WF sl := hinv.flags.wf
+  have hnd := hinv.nodup
+  -- as a sum over keys
+  let G : List (Ix × Nat) → Int := fun k =>
+    if (outputPos sl n.output).map (fun p => keyVal k p.1) =
+        (outputPos sl n.output).map (fun p => val sl σ p.1)
+    then sumOver (restRanges n sl inner) (prodTerms n A) (ov σ k) else 0
+  have h1 : ((List.range (prodSizes sl)).map fun i =>
+      if chunkKey sl (outputPos sl n.output) i = (outputPos sl n.output).map (fun p => val sl σ p.1)
+      then sliceEinsum n st inner A i σ else 0) = ((List.range (prodSizes sl)).map (sliceKey sl)).map G := by
+    rw [List.map_map]
+    apply List.map_congr_left
+    intro i _
+    simp only [Function.comp, G, chunkKey]
+    rw [sliceEinsum_eq n st hinv inner A hA i σ]
+    rfl
+  rw [h1, map_sliceKey_range sl hwf]
+  -- outputs first
+  have hsplit := sorted_eq sl hinv.sorted
+  rw [hsplit, allKeys_append, sum_flatMap]
+  rw [← hsplit]
+  have hinner : ∀ kO ∈ allKeys (outs sl),
+      (((allKeys (inners sl)).map fun kI => kO ++ kI).map G).sum =
+        if kO = outKeyOf sl σ then
+          ((allKeys (inners sl)).map fun kI =>
+            sumOver (restRanges n sl inner) (prodTerms n A) (ov σ (kO ++ kI))).sum
+        else 0 := by
+    intro kO hkO
+    rw [List.map_map]
+    by_cases he : kO = outKeyOf sl σ
+    · simp only [he, if_true]
+      congr 1
+      apply List.map_congr_left
+      intro kI _
+      simp only [Function.comp, G]
+      rw [if_pos ((outkey_match_iff n sl hinv.flags hnd σ _ kI (he ▸ hkO)).2 rfl)]
+    · simp only [he, if_false]
+      have : ((allKeys (inners sl)).map (G ∘ fun kI => kO ++ kI)) =
+          (allKeys (inners sl)).map fun _ => (0 : Int) := by
+        apply List.map_congr_left
+        intro kI _
+        simp only [Function.comp, G]
+        rw [if_neg (fun h => he ((outkey_match_iff n sl hinv.flags hnd σ kO kI hkO).1 h))]
+      rw [this, sum_map_zero]
+  rw [List.map_congr_left hinner]
+  rw [sum_ite_eq (allKeys (outs sl)) (outKeyOf sl σ) _ (allKeys_nodup _) (outKeyOf_mem sl hnd σ hσ)]
+  rw [einsumRef_eq n sl hinv.flags hnd inner hin hdisj hcover A σ]
+  congr 1
+  apply List.map_congr_left
+  intro kI hkI
+  rw [ov_outKey_append sl hnd σ kI hkI]
+
+theorem axesOf_outputPos (sl : List SliceInfo) (out : List Ix) :
+    axesOf out ((outputPos sl out).map (·.1)) = out.filter fun ix => !isSliced sl ix := by
+  unfold axesOf outputPos
+  rw [fst_outputPosFrom]
+  apply List.filter_congr
+  intro ix hix
+  simp only [List.contains_eq_mem, List.mem_filter, hix, true_and, decide_eq_true_eq]
+  cases isSliced sl ix <;> simp
+
+/-- **gather_correct**: if every slice result `S i` is the einsum of its sliced network, with
+    axes `output` minus the sliced indices (this is property C01 for the sliced tree), then
+    `gather_slices` succeeds and returns an array that, read with axes `output` (a projected
+    output index being an axis of length 1), is the einsum of the unsliced network.  For every
+    state reachable by `remove_ind` / `restore_ind` (`Inv`). -/
+theorem gather_correct (n : Net) (st : SliceState) (hinv : Inv n st) (hout : n.output.Nodup)
+    (hpos : ∀ ix, 0 < n.size ix) (inner : List Ix) (hin : inner.Nodup)
+    (hdisj : ∀ ix ∈ inner, ix ∉ n.output)
+    (hcover : ∀ s ∈ st.slicedInds, s.ind ∉ n.output → s.ind ∈ inner)
+    (A : List Arr) (hA : A.length = n.inputs.length) (S : Nat → Arr)
+    (hS : ∀ i σ, denote ((slicedNet n st.slicedInds).output) (S i) σ = sliceEinsum n st inner A i σ) :
+    ∃ R, gatherSlices n.output st.slicedInds ((List.range (prodSizes st.slicedInds)).map S) = some R ∧
+      ∀ σ, (∀ s ∈ outs st.slicedInds, InRange st.slicedInds σ s.ind) →
+        denote n.output R σ = einsumRef n st.slicedInds inner A σ := by
+  set sl := st.slicedInds with hsl
+  have hwf : WF sl := hinv.flags.wf
+  have hnd := hinv.nodup
+  have hsz : ∀ s ∈ sl, 0 < s.size := by
+    intro s hs
+    have := hinv.flags s hs
+    cases hp : s.project with
+    | none => rw [this.2.1 hp]; exact hpos _
+    | some p => rw [this.2.2 (by simp [hp])]; exact Nat.one_pos
+  have hax : axesOf n.output ((outputPos sl n.output).map (·.1)) = (slicedNet n sl).output :=
+    axesOf_outputPos sl n.output
+  -- every entry of output_pos belongs to a sliced *output* index
+  have hopos_out : ∀ p ∈ outputPos sl n.output, ∃ s ∈ outs sl, s.ind = p.1 := by
+    intro p hp
+    have hmem : p.1 ∈ n.output.filter (isSliced sl) := by
+      have := fst_outputPosFrom sl 0 n.output
+      rw [← this]; exact List.mem_map.2 ⟨p, hp, rfl⟩
+    obtain ⟨hpo, hps⟩ := List.mem_filter.1 hmem
+    obtain ⟨s, hs, hse⟩ := exists_of_isSliced sl p.1 hps
+    refine ⟨s, List.mem_filter.2 ⟨hs, ?_⟩, hse⟩
+    have := (hinv.flags s hs).1
+    rw [hse] at this
+    have hc : n.output.contains p.1 = true := by simpa using hpo
+    rw [hc] at this
+    simp [this]
+  by_cases hne : outputPos sl n.output = []
+  · -- nothing to stack: plain sum
+    obtain ⟨R, hR, hget⟩ := gather_sum n.output sl S hne (prodSizes_pos n hpos sl hinv.flags)
+    refine ⟨R, hR, fun σ hσ => ?_⟩
+    rw [← slice_sum n st hinv inner hin hdisj hcover A hA σ hσ]
+    unfold denote
+    rw [hget]
+    congr 1
+    apply List.map_congr_left
+    intro i _
+    rw [hne]
+    simp only [chunkKey, List.map_nil, if_true]
+    rw [← hS i σ, ← hax, hne]
+    simp [axesOf_nil, denote]
+  · have key : ∀ σ, (∀ s ∈ outs sl, InRange sl σ s.ind) →
+        ∃ R, gatherSlices n.output sl ((List.range (prodSizes sl)).map S) = some R ∧
+          denote n.output R σ = einsumRef n sl inner A σ := by
+      intro σ hσ
+      obtain ⟨R, hR, hden⟩ := gather_denote n.output hout sl hwf hnd hsz S σ
+        (by
+          intro p hp
+          obtain ⟨s, hs, hse⟩ := hopos_out p hp
+          rw [← hse]; exact hσ s hs) hne
+      refine ⟨R, hR, ?_⟩
+      rw [hden, ← slice_sum n st hinv inner hin hdisj hcover A hA σ hσ]
+      congr 1
+      apply List.map_congr_left
+      intro i _
+      rw [hax, hS i σ]
+    -- the result array does not depend on σ
+    have hex : ∃ σ0 : Ix → Nat, ∀ s ∈ outs sl, InRange sl σ0 s.ind := by
+      refine ⟨fun _ => 0, ?_⟩
+      intro s hs
+      have hsl' : s ∈ sl := (List.mem_filter.1 hs).1
+      unfold InRange
+      have : rangeOf sl s.ind = s.slicedRange := by simp [rangeOf, infoOf_of_mem sl hnd s hsl']
+      rw [this]
+      unfold SliceInfo.slicedRange
+      cases hp : s.project with
+      | none => simp only [List.length_range]; exact hsz s hsl'
+      | some p => simp
+    obtain ⟨σ0, hσ0⟩ := hex
+    obtain ⟨R, hR, _⟩ := key σ0 hσ0
+    refine ⟨R, hR, fun σ hσ => ?_⟩
+    obtain ⟨R', hR', hd⟩ := key σ hσ
+    rw [hR] at hR'
+    cases hR'
+    exact hd
+
+/-- `gather_correct` for the canonical list of summed indices of the network -/
+theorem gather_correct_canonical (n : Net) (st : SliceState) (hinv : Inv n st) (hout : n.output.Nodup)
+    (hpos : ∀ ix, 0 < n.size ix) (hmem : ∀ s ∈ st.slicedInds, s.ind ∈ n.allIx)
+    (A : List Arr) (hA : A.length = n.inputs.length) (S : Nat → Arr)
+    (hS : ∀ i σ, denote ((slicedNet n st.slicedInds).output) (S i) σ =
+      sliceEinsum n st (innerIxs n) A i σ) :
+    ∃ R, gatherSlices n.output st.slicedInds ((List.range (prodSizes st.slicedInds)).map S) = some R ∧
+      ∀ σ, (∀ s ∈ outs st.slicedInds, InRange st.slicedInds σ s.ind) →
+        denote n.output R σ = einsumRef n st.slicedInds (innerIxs n) A σ := by
+  apply gather_correct n st hinv hout hpos (innerIxs n) (innerIxs_nodup n) _ _ A hA S hS
+  · intro ix hix
+    unfold innerIxs at hix
+    have := (List.mem_filter.1 hix).2
+    simpa using this
+  · intro s hs hno
+    unfold innerIxs
+    exact List.mem_filter.2 ⟨hmem s hs, by simpa using hno⟩
 
 /-! ## non-vacuity -/
 
